@@ -1,5 +1,6 @@
 SPECIFICATION Spec
 INVARIANT AnsiRoundTrip
 INVARIANT BackslashRoundTripIffNoBackslash
+INVARIANT PrinterLaw
 INVARIANT Emit2
 CHECK_DEADLOCK FALSE
